@@ -211,12 +211,79 @@ def run_x(ctx, proof):
                              correspondence_name="table.UpdatePathAttrs (PrependAsn/RemovePrivateAS/removeConfedAs) vs Rewrite.Model.update_path_attrs"), cases
 
 
+# ---- AS_PATH with AS_SET segments (aggregates): loop prevention towards a peer looks at every segment. Outside the
+# Speaker model (one AS_SEQUENCE); decided by the rule alone.
+SET_PFX = ["10.1.0.0/24", "10.2.0.0/24"]
+SET_AS = {"a": 65001, "b": 65002, "c": 65003}
+
+
+def gen_set(rng):
+    ev = []
+    for _ in range(rng.choice([3, 6, 10])):
+        if rng.random() < 0.8:
+            members = rng.sample([200, 300, 65002, 65003, 400], rng.choice([1, 2, 3]))
+            seq = [65001] + rng.choice([[], [100], [100, 65003], [65002]])
+            tail = rng.choice([[], [500]])
+            ev.append(("ann", rng.choice(SET_PFX), seq, members if rng.random() < 0.8 else [], tail))
+        else:
+            ev.append(("wd", rng.choice(SET_PFX)))
+        if rng.random() < 0.4:
+            ev.append(("obs",))
+    ev.append(("obs",))
+    return {"events": ev}
+
+
+def set_line(c):
+    steps = ["(up a)", "(up b)", "(up c)"]
+    for e in c["events"]:
+        if e[0] == "ann":
+            toks = list(map(str, e[2])) + (["s:" + ":".join(map(str, e[3]))] if e[3] else []) + list(map(str, e[4]))
+            steps.append("(upd a (a %s 0 (%s) - - 0 () - ()))" % (e[1], " ".join(toks)))
+        elif e[0] == "wd":
+            steps.append("(upd a (w %s 0))" % e[1])
+        else:
+            steps.append("(obs)")
+    return "(sim (global 65000 1.1.1.1 sync) (peers (a 10.0.0.1 65001) (b 10.0.0.2 65002) (c 10.0.0.3 65003)) (steps %s))" % " ".join(steps)
+
+
+def set_oracle(c, out):
+    r = simlib.split_output(out)
+    if r is None:
+        return ("harness-error", "the scenario did not complete: " + out[:300])
+    obs = r[0]
+    cur = {}
+    i = 0
+    for e in c["events"]:
+        if e[0] == "ann":
+            cur[e[1]] = set(e[2]) | set(e[3]) | set(e[4])
+        elif e[0] == "wd":
+            cur.pop(e[1], None)
+        else:
+            o = obs[i]
+            i += 1
+            for p in ("b", "c"):
+                have = sorted(k.split("#")[0] for k in o["peers"][p].get("view", {}))
+                want = sorted(pf for pf, ases in cur.items() if SET_AS[p] not in ases)
+                if have != want:
+                    bad = sorted(set(have) - set(want))
+                    if bad:
+                        return ("advertised-to-peer-whose-as-is-in-the-path", "%s (AS %d) holds %s; ASes on those paths: %s" % (p, SET_AS[p], bad, {x: sorted(cur.get(x, [])) for x in bad}))
+                    return ("eligible-route-missing", "%s (AS %d) holds %s, eligible are %s" % (p, SET_AS[p], have, want))
+    return None
+
+
+def run_set(ctx, proof):
+    n = ctx.scale(400, 8000)
+    cases = [gen_set(ctx.rng) for _ in range(n)]
+    return spkcommon.oracle_only(ctx, proof, cases, set_line, set_oracle, "loop prevention towards a peer over AS_PATHs with AS_SET segments (rule oracle only)")
+
+
 def run(ctx):
     return spkcommon.run(ctx, "C09", oracle, "UpdatePathAttrs/filterpath/filterPathFromSourcePeer/handleUpdate vs Speaker.Model export/filter0/rejected",
                          ["AS_PATH is one AS_SEQUENCE of at most a few members; confederation, remove-private-as, replace-peer-as, "
                           "allow-own-as > 0, route-server clients and unknown non-transitive attributes are outside the model",
                           "cluster-id = router-id (the default)"],
-                         fields=("view", "rib", "adjin"), extra=run_x)
+                         fields=("view", "rib", "adjin"), extra=[run_x, run_set])
 
 
 def replay(ctx, path):
